@@ -27,7 +27,7 @@ What is proved is `segmentation_independent_partial`: the same equation under th
 hypothesis `a.safe` on the *request* — no terms `size`, terms/histogram/date_histogram
 `min_doc_count ≤ 1`, no rare_terms node, top_hits only with `from = 0`, composite histogram
 sources over f64 columns, no date_histogram that combines a calendar interval, a non-zero offset
-and bounds — i.e. exactly the requests on which `TermsCollector::finish` /
+and bounds, no date_histogram by calendar quarter — i.e. exactly the requests on which `TermsCollector::finish` /
 `RareTermsCollector::finish` / `HistogramCollector::finish` / `DateHistogramCollector::finish`
 cannot drop, per segment, something the merged counts would keep, and on which the composite
 collector reads the column.  (top_hits with `from = 0` is exact by the top-k merge lemma
@@ -339,6 +339,15 @@ theorem date_histogram_fill_drops_offset :
       some [(Key.num (-2674800000), 0), (Key.num 0, 0), (Key.num 2678400000, 0)] ∧
     counts (Spec.agg a []) =
       [(Key.num (-2674800000), 0), (Key.num 3600000, 0), (Key.num 2682000000, 0)] := by
+  decide +kernel
+
+/-- date_histogram, calendar quarter: a value on 1970-05-31 gets no bucket in the mechanism
+(`with_month(4)` on the 31st fails before `with_day(1)` is applied); the reference counts it in
+the quarter starting 1970-04-01.  One segment suffices. -/
+theorem date_histogram_quarter_drops_may31 :
+    let a : Agg Unit Nat := .bucket (.dhist () (.calendar .quarter) 0 0 none none none false) .nil
+    (run a [[ndoc 0 [12960000000]]]).map counts = some [] ∧
+    counts (Spec.agg a [ndoc 0 [12960000000]]) = [(Key.num 7776000000, 1)] := by
   decide +kernel
 
 def hitIds {κ : Type} : Node κ → List Nat
